@@ -272,7 +272,8 @@ def run_shard(ctx, spec):
     mon = Monitor(ctx)
     a = mon.a
     rnd = random.Random(ctx.seed * 7 + spec['i'])
-    ages = [35, 50, 80, 100] if ctx.tier == 'quick' else [20, 35, 50, 65, 80, 95, 100]
+    # whole ages and ages between two columns of the table (the grader interpolates between ages as well)
+    ages = [35, 47.5, 50, 80, 100, 60.25] if ctx.tier == 'quick' else [20, 35, 35.5, 50, 52.25, 65, 80, 95, 99.5, 100, 100.5]
     # one process serves both genders and both table years, interleaved query by query: the graders are
     # shared objects, so a lookup cached or left behind by one (gender, year) must not leak into the next
     combos = [(2023, 'm'), (2023, 'f'), (2015, 'm'), (2015, 'f')]
